@@ -29,9 +29,10 @@
 // For terminate the noexcept barrier (frame that called __clang_call_terminate) is appended as |in=...; for a signal
 // the crash site is used instead of the throw site.
 // LDLIBS: -ldl
-// CXXFLAGS: -DNDEBUG
-// (-DNDEBUG: the library is built with it; inline/template code of the library headers that is instantiated here replaces
-//  the library's own copies at load time, so it has to be the same code - without assert().)
+// CXXFLAGS: -DNDEBUG -fvisibility=hidden -fvisibility-inlines-hidden
+// (Inline/template code of the library headers that gets instantiated in this executable would otherwise be exported and
+//  REPLACE the library's own copies at load time - with assert() enabled and different inlining. Hidden visibility keeps
+//  the library running its own code, so throw sites symbolise against libxalan-c.so; -DNDEBUG matches the library build.)
 #include "common.hpp"
 #include "isolate.hpp"
 
@@ -1513,7 +1514,7 @@ int replayMain(const std::string& caseName, long long k)
 // (the executable's definition wins for the library's calls as well): after the armed allocation has thrown, every catch
 // whose exception type is std::bad_alloc records its stack; the last one is the handler that did not rethrow it as such -
 // the harness' own catch (surfaced), or the library handler that swallowed or converted it.
-extern "C" void* __cxa_begin_catch(void* exc) noexcept
+extern "C" __attribute__((visibility("default"))) void* __cxa_begin_catch(void* exc) noexcept
 {
     typedef void* (*Fn)(void*);
     static Fn real = (Fn)dlsym(RTLD_NEXT, "__cxa_begin_catch");
@@ -1532,7 +1533,7 @@ extern "C" void* __cxa_begin_catch(void* exc) noexcept
 
 // AddressSanitizer calls this (weak hook) when it is about to report an error
 extern "C" const char* __asan_get_report_description();
-extern "C" void __asan_on_error()
+extern "C" __attribute__((visibility("default"))) void __asan_on_error()
 {
     if (g_rep != 0)
     {
